@@ -178,8 +178,7 @@ class C03Mon(Monitor):
         if sub.kind != "round":
             return
         if sub.exc is not None:
-            raise Violation("C03.raises", "matching round raised %s on a book reached by valid operations" % type(sub.exc).__name__,
-                            repr(sub.exc))
+            raise Violation("C03.raises", "matching round raised on a book reached by valid operations | %s" % repr(sub.exc)[:100])
         b, a = w.books()
         nmo_b = sum(1 for o, _ in sub.pre_buy if o.kind == MARKET_ORDER)
         nmo_s = sum(1 for o, _ in sub.pre_sell if o.kind == MARKET_ORDER)
@@ -216,8 +215,7 @@ class C04Mon(Monitor):
         m = w.m
         if sub.exc is not None:
             if sub.kind in ("add", "cancel", "tick"):
-                raise Violation("C04.raises", "%s of a valid operation raised %s" % (sub.kind, type(sub.exc).__name__),
-                                repr(sub.exc))
+                raise Violation("C04.raises", "a valid operation raised | %s raised %s" % (sub.kind, repr(sub.exc)[:100]))
             return
         if sub.kind == "add":
             o = sub.order
@@ -288,6 +286,7 @@ class C04Mon(Monitor):
             rem = e.acc - e.fills
             should = (e.cancel_time is None and rem > 0 and (o.ttl is None or now <= o.placed_at + o.ttl))
             V((id(o) in live) == should, "C04.membership",
+              "book membership of an order contradicts its accepted volume, fills, cancellation and time-to-live",
               "order is %sin the book although accepted=%s fills=%s cancelled=%s ttl=%s placed=%s now=%s" % (
                   "" if id(o) in live else "not ", e.acc, e.fills, e.cancel_time is not None, o.ttl, o.placed_at, now))
             if id(o) in live:
@@ -387,17 +386,18 @@ class C08Mon(Monitor):
                 w.wit.inc("fills")
         # ---- compare
         V(feq(m.get_market_price(), self.mp), "C08.market_price",
-          "market price %s but book and fills imply %s (running=%s, last trade=%s, mid=%s)" % (
-              m.get_market_price(), self.mp, running, self.last, self.mid), "after %s" % sub.kind)
-        V(feq(m.get_mid_price(), self.mid), "C08.mid_price",
-          "mid price %s but best quotes imply %s" % (m.get_mid_price(), self.mid), "after %s" % sub.kind)
-        V(feq(m.get_last_executed_price(), self.last), "C08.last_price",
-          "last executed price %s but most recent fill was at %s" % (m.get_last_executed_price(), self.last))
+          "market price is not what book, fills and running state imply",
+          "got %s expected %s (running=%s, last trade=%s, mid=%s) after %s" % (
+              m.get_market_price(), self.mp, running, self.last, self.mid, sub.kind))
+        V(feq(m.get_mid_price(), self.mid), "C08.mid_price", "mid price is not what the best quotes imply",
+          "got %s expected %s after %s" % (m.get_mid_price(), self.mid, sub.kind))
+        V(feq(m.get_last_executed_price(), self.last), "C08.last_price", "last executed price is not the most recent fill price",
+          "got %s expected %s" % (m.get_last_executed_price(), self.last))
         b, a = w.books()
         for side, getter, bookgetter, rev in ((b, m.get_best_buy_price, m.get_buy_order_book, True),
                                               (a, m.get_best_sell_price, m.get_sell_order_book, False)):
             exp_best = min(side, key=K).price if side else None
-            V(getter() == exp_best, "C08.best_quote", "best quote %s but the book's top order has price %s" % (getter(), exp_best))
+            V(getter() == exp_best, "C08.best_quote", "best quote is not the price of the book's top order", "got %s expected %s" % (getter(), exp_best))
             exp = {}
             for o in side:
                 exp[o.price] = exp.get(o.price, 0) + o.volume
@@ -408,18 +408,18 @@ class C08Mon(Monitor):
             got = bookgetter()
             V(list(got.items()) == [(k, exp[k]) for k in keys], "C08.depth",
               "per-price depth does not describe the current book", "got=%s expected=%s" % (got, [(k, exp[k]) for k in keys]))
-        V(m.get_executed_volume() == self.vol.get(t, 0), "C08.step_volume",
-          "executed volume of the step %s != sum of the step's fills %s" % (m.get_executed_volume(), self.vol.get(t, 0)))
+        V(m.get_executed_volume() == self.vol.get(t, 0), "C08.step_volume", "executed volume of the step != sum of the step's fills",
+          "got %s expected %s" % (m.get_executed_volume(), self.vol.get(t, 0)))
         V(feq(m.get_executed_total_price(), self.tot.get(t, 0.0)), "C08.step_turnover",
           "turnover of the step != sum of price x volume of the step's fills")
         V(m.get_n_buy_order() == self.nb.get(t, 0) and m.get_n_sell_order() == self.ns.get(t, 0), "C08.order_counts",
-          "buy/sell order counts of the step (%s/%s) != acceptances (%s/%s)" % (
+          "buy/sell order counts of the step != acceptances", "got %s/%s expected %s/%s" % (
               m.get_n_buy_order(), m.get_n_sell_order(), self.nb.get(t, 0), self.ns.get(t, 0)))
         vw = m.get_vwap()
         if self.cumvol == 0:
             V(isinstance(vw, float) and math.isnan(vw), "C08.vwap", "VWAP defined before any fill")
         else:
-            V(feq(vw, self.cumtot / self.cumvol), "C08.vwap", "VWAP %s != cumulative turnover / cumulative volume %s" % (vw, self.cumtot / self.cumvol))
+            V(feq(vw, self.cumtot / self.cumvol), "C08.vwap", "VWAP != cumulative turnover / cumulative volume", "got %s expected %s" % (vw, self.cumtot / self.cumvol))
             if len(self.vol) > 1:
                 w.wit.inc("vwap_over_several_steps")
         if b and min(b, key=K).kind == MARKET_ORDER or a and min(a, key=K).kind == MARKET_ORDER:
